@@ -79,6 +79,11 @@ def gen_text(rng, risky_p, maxlen=24):
 def gen_value(rng, risky_p, fmt_hint=None, multiline_p=0.0):
     """Metadata value: usually one line; with multiline_p two to four lines (no leading/trailing blanks on any line; a value
     line never starts with a framing token)."""
+    r = rng.random()
+    if r < risky_p * 0.15:
+        return ''                                              # a key whose value is empty
+    if r < risky_p * 0.45:
+        return rng.choice([0, 1, -7, 42, 3.5, 1e-05, True, False, None, 10 ** 12])     # values users put into metadata as objects
     if rng.random() >= multiline_p:
         return gen_text(rng, risky_p, 40)
     lines = [gen_text(rng, risky_p, 24) for _ in range(rng.choice([2, 2, 3, 4]))]
@@ -91,6 +96,8 @@ def gen_key(rng, risky_p):
     s = ''.join(rng.choice('abcdefghijklmnopqrstuvwxyzABCDEFGHIJKLMNOPQRSTUVWXYZ0123456789_-.') for _ in range(rng.randrange(1, 12)))
     if rng.random() < risky_p:
         s = s + rng.choice(['>', '<', ' x', '&', '"', '<>', '$', '&gt;', '&lt;x', '&amp;', '&quot;q', '&#38;', '&amp;gt;', "'", ' $DATUM', '$DTYPE'])
+    if rng.random() < risky_p * 0.2:
+        return rng.choice([7, 2024, 1.5, True])               # keys that are not strings (str() of them is what a file can hold)
     return s.strip() or 'k'
 
 
@@ -310,7 +317,10 @@ def norm_meta(meta, fmt):
     for k, v in (meta or {}).items():
         if str(k).startswith('chython_'):
             continue
-        out[' '.join(str(k).split()) if fmt in ('sdf', 'esdf') else str(k).strip()] = norm_value(v)
+        nv = norm_value(v)
+        if nv == '':
+            continue        # a key without a value: the MDL readers drop it, MRV keeps it aside; neither is a loss of text
+        out[' '.join(str(k).split()) if fmt in ('sdf', 'esdf') else str(k).strip()] = nv
     return out
 
 
@@ -370,6 +380,16 @@ def mol_view(m, stereo=True):
     return v
 
 
+def _unparsed(meta):
+    """Did the reader put text aside that it could not parse?  (A key whose value is empty is kept aside by MRVRead as the raw
+    property - that is no text lost.)"""
+    for x in (meta or {}).get('chython_unparsed_metadata', ()) or ():
+        if isinstance(x, dict) and not str((x.get('scalar') or {}).get('$', '') if isinstance(x.get('scalar'), dict) else '').strip():
+            continue
+        return True
+    return False
+
+
 def record_view(rec, fmt, stereo=True):
     from chython.containers import ReactionContainer
     if isinstance(rec, ReactionContainer):
@@ -381,12 +401,12 @@ def record_view(rec, fmt, stereo=True):
         return {'kind': 'rxn', 'r': [member(m) for m in rec.reactants],
                 'p': [member(m) for m in rec.products], 'a': [member(m) for m in rec.reagents],
                 'name': rec.name.strip(), 'meta': norm_meta(rec._meta, fmt),
-                'unparsed': 'chython_unparsed_metadata' in (rec._meta or {})}
+                'unparsed': _unparsed(rec._meta)}
     v = mol_view(rec, stereo)
     v['kind'] = 'mol'
     v['name'] = rec.name.strip()
     v['meta'] = norm_meta(rec._meta, fmt)
-    v['unparsed'] = 'chython_unparsed_metadata' in (rec._meta or {})
+    v['unparsed'] = _unparsed(rec._meta)
     return v
 
 
